@@ -31,6 +31,7 @@ def run(ctx):
     ctx.each(optalg.objective_definition, ctx, repo, "R15g")
     ctx.each(optalg.evaluation_pipeline, ctx, repo, "R15h")
     ctx.each(optalg.proposal_application, ctx, repo, "R15i")
+    ctx.each(optalg.calibration_objective, ctx, repo, "R15j")
 
 
 def _chain_txt(e):
